@@ -16,8 +16,9 @@
    model, not a verdict.
 
    Lines with e = "send" were recorded one level up, at the real
-   GossipSubRouter.sendRPC (what was queued for the wire, how many drops were
-   reported); they are judged against SendVerdict of SplitRel.tla.
+   GossipSubRouter.sendRPC (what was queued for the wire, what was reported as
+   dropped to the raw tracer and in the DROP_RPC trace event, what was kept for
+   a retry); they are judged against SendVerdict of SplitRel.tla.
 
    Shapes omit empty fields; Norm restores them.                           *)
 EXTENDS Naturals, Sequences, FiniteSets, TLC, Json, Split
@@ -45,17 +46,19 @@ Judge(e) ==
                                      empty |-> v.empty, over |-> v.over, badover |-> v.badover,
                                      alien |-> alien, shapeok |-> shapeOK])>>)
 
-\* a line recorded at GossipSubRouter.sendRPC: what was queued for the wire
+\* a line recorded at GossipSubRouter.sendRPC: what was queued for the wire, what was reported dropped
+NormEvt(r) == [Norm(r) EXCEPT !.pub = <<>>] @@ [n |-> r.n]
 JudgeSend(e) ==
     LET rpc    == Norm(e.inp)
-        alone  == Norm(e.alone)
         queued == [i \in DOMAIN e.queued |-> Norm(e.queued[i])]
-        shapeOK == Len(e.qsizes) = Len(e.queued)
-        v      == SendVerdict(rpc, alone, e.limit, queued, e.qsizes, e.drops)
+        rep    == [i \in DOMAIN e.rep |-> Norm(e.rep[i])]
+        evt    == [i \in DOMAIN e.evt |-> NormEvt(e.evt[i])]
+        shapeOK == Len(e.qsizes) = Len(e.queued) /\ Len(e.dsizes) = Len(e.rep)
+        v      == SendVerdict(rpc, e.limit, queued, e.qsizes, rep, e.dsizes, evt, Norm(e.retry), e.cap)
     IN IF shapeOK /\ SendHolds(v) THEN TRUE
-       ELSE PrintT(<<"VIOL", ToJson([id |-> e.id, anylost |-> v.anylost, lost |-> v.lost, lostpub |-> v.lostpub, extra |-> v.extra,
-                                     puborder |-> v.puborder, empty |-> v.empty, over |-> v.over,
-                                     unreported |-> v.unreported, shapeok |-> shapeOK])>>)
+       ELSE PrintT(<<"VIOL", ToJson([id |-> e.id, lost |-> v.lost, extra |-> v.extra, puborder |-> v.puborder,
+                                     empty |-> v.empty, over |-> v.over, baddrop |-> v.baddrop,
+                                     evtbad |-> v.evtbad, retrybad |-> v.retrybad, shapeok |-> shapeOK])>>)
 
 FixedAll == {"D1", "empty", "sov0"}
 Conformance(e) ==
